@@ -153,10 +153,17 @@ def register(R):
         f'{TF}.set_exception', props=['C17'], params=dict(exception=ExtT('exception')),
         ensures=lambda c: {'delegates_with_override': z3.BoolVal(any(
             e.kind == 'call' and e.name == f'{TC}.set_exception' and e.extra['env'].get('override') is True
-            for e in c.trace))},
+            and e.extra['env'].get('exception') is c.a_exception for e in c.trace)),
+            'only_on_a_transfer_seen_finished': _seen_done(c)},
         raises={f's3transfer.exceptions:TransferNotDoneError': lambda c: {
-            'coordinator_untouched': z3.BoolVal(not any(e.kind == 'call' and e.name == f'{TC}.set_exception' for e in c.trace))}},
+            'coordinator_untouched': z3.BoolVal(not any(e.kind == 'call' and e.name == f'{TC}.set_exception' for e in c.trace)),
+            'only_when_the_transfer_was_seen_unfinished': z3.Not(_seen_done(c))}},
     )
+
+
+def _seen_done(c):
+    reads = [e for e in c.trace if e.kind == 'read' and e.name == '_status']
+    return status_in(reads[-1].result, DONE) if reads else z3.BoolVal(False)
 
 
 def _inv_at(eng, st, ref):
